@@ -165,6 +165,30 @@ Theorem C03_damaged_entry_replaced :
 Proof. exact damaged_entry_replaced. Qed.
 Print Assumptions C03_damaged_entry_replaced.
 
+(* The environment of the SERVER process never enters the key.  A crate names the variables it reads at compile
+   time ([reads]); the values sccache hashes for them are observed by a run of rustc whose environment is the
+   client's and nothing else ([spawn_env]), so the request as seen by a server started from srv and by one started
+   from srv' — after a restart from another shell, or an on-demand start by whichever client came first — is the
+   same request, with the same fingerprint.  (With C03_hit_after_store: an entry stored under one server is hit
+   under every later one.) *)
+Theorem C03_key_ignores_server_env :
+  forall (srv srv' : list (bytes * bytes)) (reads : list bytes) (r : request),
+  request_in srv reads r = request_in srv' reads r /\
+  fingerprint_of (request_in srv reads r) = fingerprint_of (request_in srv' reads r).
+Proof. intros; split; [apply request_ignores_server_env | apply key_ignores_server_env]. Qed.
+Print Assumptions C03_key_ignores_server_env.
+
+(* A request that arrives while the compiler cannot be probed (a transient failure: the server's temp directory
+   is missing) is refused — and everything is left EXACTLY as it was: no negative answer is remembered for the
+   compiler, cache and counters are untouched.  The histories of C03_hit_after_store
+   range over such events too (they are not requests in the sense of [unrelated]): the identical request after the
+   repair is a hit. *)
+Theorem C03_failed_probe_leaves_no_trace :
+  forall (key_of : fingerprint -> key) (compile : request -> N -> cresult) (w : world) (r : request),
+  fst (step_event key_of compile w (EProbeFail r)) = w.
+Proof. exact failed_probe_leaves_no_trace. Qed.
+Print Assumptions C03_failed_probe_leaves_no_trace.
+
 (* ---------- non-vacuity ---------- *)
 Import C03Example.
 
@@ -210,3 +234,18 @@ Example C03_example_mounts :
   restore_mounted mnt [([111], 5)] [out [111] [100; 47; 97]] [] = (true, [([100; 47; 97], 5)]) /\
   mnt (stage_dir (out [111] [100; 47; 97])) <> mnt [].
 Proof. split; [vm_compute; reflexivity | vm_compute; discriminate]. Qed.
+
+(* restart, the identical request refused because the compiler cannot be probed, its output deleted: the history is
+   "unrelated" in the sense of C03_hit_after_store and the next identical request is a hit *)
+Example C03_example_failed_probe :
+  unrelated kof r0 [ERestart; EProbeFail r0; EDelete a_o] = true /\ cached kof (w_pf 1000) r0 = true /\
+  oc_kind (o_pf 1000) = KHit /\ oc_compiled (o_pf 1000) = false.
+Proof. vm_compute. repeat split; reflexivity. Qed.
+
+(* the observation for a variable the client does not set is "unset" under every server environment, and differs
+   from the one of a client that sets it *)
+Example C03_example_server_env :
+  rq_env_deps (r_tag [(tag_var, [110])]) = [(tag_var, [0])] /\
+  fingerprint_of (r_tag [(tag_var, [110])]) = fingerprint_of (r_tag []) /\
+  observed_env_deps [] [(tag_var, [110])] [tag_var] = [(tag_var, [1; 110])].
+Proof. vm_compute. repeat split; reflexivity. Qed.
